@@ -14,15 +14,35 @@ def start_vs_signal(join: int, v0: int) -> bool:
     return _race(join, v0, 1, "start_vs_signal", prop="C18")
 
 
-def start_vs_signal_anywhere(join: int, v0: int, k: int) -> bool:
+def start_vs_signal_anywhere_and(v0: int, k: int) -> bool:
     """
     pre: 0 <= v0 <= 1000 and 1 <= k <= 60
     post: _
     """
     from harness.C04_claim import _nested_any
 
-    return _nested_any(join, v0, k, 1, False, "start_vs_signal_anywhere", prop="C18")
+    return _nested_any(0, v0, k, 1, False, "start_vs_signal_anywhere_and", prop="C18")
 
 
-PLAN = [("start_vs_signal", "quick", 200), ("start_vs_signal_anywhere", "quick", 280)]
+def start_vs_signal_anywhere_firstof(v0: int, k: int) -> bool:
+    """
+    pre: 0 <= v0 <= 1000 and 1 <= k <= 60
+    post: _
+    """
+    from harness.C04_claim import _nested_any
+
+    return _nested_any(1, v0, k, 1, False, "start_vs_signal_anywhere_firstof", prop="C18")
+
+
+def start_vs_signal_anywhere_quorum(v0: int, k: int) -> bool:
+    """
+    pre: 0 <= v0 <= 1000 and 1 <= k <= 60
+    post: _
+    """
+    from harness.C04_claim import _nested_any
+
+    return _nested_any(2, v0, k, 1, False, "start_vs_signal_anywhere_quorum", prop="C18")
+
+
+PLAN = [("start_vs_signal", "quick", 200)] + [("start_vs_signal_anywhere_%s" % jn, "quick", 280) for jn in ("and", "firstof", "quorum")]
 META = dict(_M)
